@@ -70,6 +70,7 @@ def _run_job(job):
     ex.fp_inputs = bool(opts.get('fp_inputs'))
     ex.linear_normalize = bool(opts.get('linear_normalize'))
     ex.pin_consts = bool(opts.get('pin_consts'))
+    ex.feas_timeout_ms = int(opts.get('feas_timeout_ms', 20000))
     ex.fp_mode = bool(opts.get('fp_mode'))
     st = State()
     pkg = PKGS[job['pkg']]
@@ -103,7 +104,7 @@ def _run_job(job):
         r = d.discharge(obl)
         rec = None
         if r.verdict in ('sat', 'sat-abstract'):
-            rec = stubs.fix_record(ex, r.model, model_record(ex, r.model, job['harness'], job['params']))
+            rec = stubs.align_script(ex, r.model, stubs.fix_record(ex, r.model, model_record(ex, r.model, job['harness'], job['params'])))
         results.append({'kind': obl.kind, 'label': obl.label, 'pos': obl.pos, 'verdict': r.verdict, 'detail': r.detail,
                         't': round(r.t, 4), 'queries': r.queries, 'record': rec})
     if opts.get('fdiv_candidates'):
